@@ -22,6 +22,7 @@ def make_psm_table(
     tie_free=True,
     rowid=True,
     letter_peptides=False,
+    good_feats=(0,),
 ):
     """rows: one per PSM; `rng` is a random.Random. Returns a DataFrame in PIN column order."""
     rows = []
@@ -35,7 +36,7 @@ def make_psm_table(
             good = target and rng.random() < 0.6
             feats = []
             for f in range(n_feat):
-                base = rng.gauss(signal if (good and f == 0) else 0.0, 1.0)
+                base = rng.gauss(signal if (good and f in good_feats) else 0.0, 1.0)
                 v = round(base * 64) if integer_scores else base
                 feats.append(v)
             if tie_free and integer_scores:
